@@ -11,3 +11,5 @@ import ZbossModel.Props.C11
 #print axioms Zboss.Host.C11_run_is_a_schedule
 #print axioms Zboss.Host.C11_no_write_while_ack_pending
 #print axioms Zboss.Host.C11_each_after_ack_or_expiry
+#print axioms Zboss.Reasm.C11_ncp_sees_request
+#print axioms Zboss.Reasm.C11_ncp_sees_small_request
